@@ -177,6 +177,47 @@ Proof.
     apply re_real. unfold isreal. rewrite Hcj. f_equal.
     unfold A, B. rewrite <- (wk_core n tw Hnpos N (nthF x) (Z.of_nat k)). apply nrm2_real.
 Qed.
+(* ---------- the buffer that is transformed, overlapping layouts included (NFFT >= lag+1) ---------- *)
+Theorem correlogram_buffer_thm tw rp (x : list F) y lag wfull NFFT nm be rxy ryx :
+  let n := resolve NFFT (length x) in
+  (lag < length x)%nat -> (lag + 1 <= n)%nat ->
+  corr_pos be rp x (match y with None => x | Some v => v end) lag nm = Some rxy ->
+  (match y with None => Some rxy | Some v => corr_pos be rp v x lag nm end) = Some ryx ->
+  correlogram tw rp x y lag wfull NFFT nm be
+  = Some (map re (dft tw n (mk n (layout n lag (bt_a rxy (skipn (lag + 1) wfull)) (bt_b ryx (skipn (lag + 1) wfull)))))).
+Proof.
+  intros n Hlag Hn Hxy Hyx. unfold correlogram. fold n.
+  destruct (Nat.ltb_spec lag (length x)) as [_|]; [|lia]. cbn [negb].
+  destruct (Nat.eqb_spec n 0); [lia|].
+  destruct (Nat.ltb_spec n (lag + 1)); [lia|]. cbn [andb].
+  rewrite Hxy. rewrite Hyx. f_equal. f_equal. f_equal.
+  apply list_eq_nth.
+  - rewrite !writes_length, set_nth_length, !mk_length. reflexivity.
+  - intros i Hi. rewrite !writes_length, set_nth_length, mk_length in Hi.
+    rewrite psd_layout by lia. rewrite nth_mk by exact Hi. reflexivity.
+Qed.
+
+(* ---------- the error branch of the auto-correlogram, exactly ---------- *)
+Lemma corr_pos_auto_some be rp (x : list F) lag nm : (lag < length x)%nat -> exists r, corr_pos be rp x x lag nm = Some r.
+Proof.
+  intros Hlag. destruct be; unfold corr_pos.
+  - unfold xcorr. cbv zeta. rewrite Nat.eqb_refl. cbn [negb orb].
+    destruct (Nat.ltb_spec (length x) lag); [lia|]. eexists; reflexivity.
+  - unfold correlation. cbv zeta. rewrite Nat.max_id.
+    destruct (Nat.ltb_spec lag (length x)); [|lia]. eexists; reflexivity.
+Qed.
+Theorem correlogram_auto_raises_thm tw rp (x : list F) lag wfull NFFT nm be :
+  let n := resolve NFFT (length x) in
+  correlogram tw rp x None lag wfull NFFT nm be = None <->
+  (length x <= lag \/ n = 0 \/ (n < lag + 1 /\ lag <> 1))%nat.
+Proof.
+  intros n. unfold correlogram. fold n.
+  destruct (Nat.ltb_spec lag (length x)) as [Hl|Hl]; cbn [negb]; [|split; [intros _; left; exact Hl|reflexivity]].
+  destruct (Nat.eqb_spec n 0) as [Hn|Hn]; [split; [intros _; right; left; exact Hn|reflexivity]|].
+  destruct (Nat.ltb_spec n (lag + 1)) as [H1|H1]; destruct (Nat.eqb_spec lag 1) as [H2|H2]; cbn [andb negb];
+    try (split; [intros _; right; right; split; assumption|reflexivity]);
+    destruct (corr_pos_auto_some be rp x lag nm Hl) as (r & ->); (split; [discriminate|intros [H|[H|[H H']]]; lia]).
+Qed.
 End CorT.
 
 (* in a formally real *-field N >= 1 is invertible: no side condition *)
